@@ -49,9 +49,9 @@ def lex(src):
             toks.append(Tok('str', src[i:j], i, j)); i = j; continue
         if c == '"' or (c == 'b' and i + 1 < n and src[i + 1] == '"'):
             j = i + (2 if c == 'b' else 1)
-            while src[j] != '"':
+            while j < n and src[j] != '"':
                 j += 2 if src[j] == '\\' else 1
-            j += 1
+            j = min(j + 1, n)   # an unterminated literal (a single line of a multi-line string) is one token to the end
             toks.append(Tok('str', src[i:j], i, j)); i = j; continue
         if c == "'" or (c == 'b' and i + 1 < n and src[i + 1] == "'"):
             k = i + (1 if c == 'b' else 0)
